@@ -74,7 +74,10 @@ AlphaAttr ==   \* attribute variants: annotations, ClassVar, instance attributes
    <<"if", "other">>, <<"else", "else">>}
 AlphaInst ==   \* instance attributes: conditional / repeated self.x in __init__ after class-level or earlier bindings
   {<<"class", "none">>, <<"init", "-">>, <<"assign", "self">>, <<"assign", "plain">>, <<"if", "other">>, <<"else", "else">>, <<"try", "-">>, <<"except", "-">>}
-AlphaAll == AlphaInst \cup AlphaBind \cup AlphaCond \cup AlphaGuard \cup AlphaGuardDeep \cup AlphaDeco \cup AlphaImp \cup AlphaAttr
+AlphaNoMember ==   \* targets that must not create members, next to genuine instance attributes of the same last name
+  {<<"assign", "self">>, <<"assign", "selfann">>, <<"assign", "selfdeep">>, <<"assign", "selfdeep3">>, <<"assign", "selfsub">>,
+   <<"assign", "tuple">>, <<"assign", "attr">>, <<"if", "other">>}
+AlphaAll == AlphaNoMember \cup AlphaInst \cup AlphaBind \cup AlphaCond \cup AlphaGuard \cup AlphaGuardDeep \cup AlphaDeco \cup AlphaImp \cup AlphaAttr
 AlphaSmoke == {<<"def", "none">>, <<"class", "none">>, <<"assign", "plain">>, <<"if", "TC">>, <<"if", "other">>, <<"init", "-">>,
                <<"def", "overload">>, <<"def", "staticmethod">>}
 
@@ -95,7 +98,8 @@ QuickDomains ==
    Dom("imp", AlphaImp \ {<<"class", "none">>, <<"try", "-">>, <<"except", "-">>}, 3, 2, {"f"}),
    Dom("attr", AlphaAttr \ {<<"assign", "classvar">>, <<"assign", "selfann">>}, 3, 2, {"f", "g"}),
    DomP("inst", InInit, AlphaInst \ {<<"class", "none">>, <<"init", "-">>}, 5, 3, {"f"}),
-   DomP("inst2", InInitAfterClassAttr, AlphaInst \ {<<"class", "none">>, <<"init", "-">>}, 6, 3, {"f"})}
+   DomP("inst2", InInitAfterClassAttr, AlphaInst \ {<<"class", "none">>, <<"init", "-">>}, 6, 3, {"f"}),
+   DomP("instnm", InInit, AlphaNoMember, 5, 3, {"f"})}
 ThoroughDomainsA ==
   {Dom("all", AlphaAll, 2, 1, {"f", "g"}), Dom("deco", AlphaDeco, 3, 2, {"f", "g"}), Dom("bind", AlphaBind, 4, 2, {"f", "g"}),
    Dom("cond", AlphaCond \ {<<"with", "-">>, <<"import", "from">>}, 5, 2, {"f"}), Dom("imp", AlphaImp, 4, 2, {"f"})}
@@ -103,7 +107,8 @@ ThoroughDomainsB ==
   {Dom("guard-deep", AlphaGuardDeep \ {<<"with", "-">>, <<"else", "elif">>}, 5, 3, {"f"}), Dom("guard", AlphaGuard, 4, 2, {"f"}),
    Dom("attr", AlphaAttr \ {<<"assign", "classvar">>, <<"assign", "selfann">>}, 4, 2, {"f", "g"}), Dom("attr3", AlphaAttr, 3, 2, {"f", "g"}),
    DomP("inst", InInit, AlphaInst \ {<<"class", "none">>, <<"init", "-">>}, 6, 3, {"f"}), DomP("instc", InInit, AlphaInst, 5, 3, {"f"}),
-   DomP("inst2", InInitAfterClassAttr, AlphaInst \ {<<"class", "none">>, <<"init", "-">>}, 7, 3, {"f"})}
+   DomP("inst2", InInitAfterClassAttr, AlphaInst \ {<<"class", "none">>, <<"init", "-">>}, 7, 3, {"f"}),
+   DomP("instnm", InInit, AlphaNoMember, 6, 3, {"f", "g"})}
 \* small domains in which each known defect shows (Strict = TRUE)
 DefectDomains == {Dom("smoke", AlphaSmoke, 3, 2, {"f"}), Dom("bind", AlphaBind, 3, 2, {"f"})}
 NameOrder == <<"f", "g", "h">>
@@ -121,6 +126,10 @@ Lines == UNION {{[k |-> a[1], x |-> a[2], n |-> n, d |-> d] : n \in NameChoices(
 UsedNames(l) == IF l.k = "assign" /\ l.x = "multi" THEN {l.n, Other(l.n)} ELSE {l.n}
 Opener(l) == l.k \in {"class", "init", "if", "else", "try", "except", "with"}
 SelfAssign(l) == l.k = "assign" /\ l.x \in {"self", "selfann"}
+\* assignment targets that create no member: obj.n, self.o.n, self.o.p.n (dotted names), self.n[0], (n, n2) (unsupported nodes)
+NoMemberTargets == {"attr", "selfdeep", "selfdeep3", "selfsub", "tuple"}
+\* forms the listings only use inside an __init__ (elsewhere `self` is not defined / a tuple target binds module names)
+InitOnly(l) == l.k = "assign" /\ l.x \in {"self", "selfann", "selfdeep", "selfdeep3", "selfsub", "tuple"}
 
 \* ---- structure of a listing p ---------------------------------------------------------------------
 MaxOf(S) == CHOOSE a \in S : \A b \in S : b <= a
@@ -141,7 +150,7 @@ CanAppend(p, l) ==
   IN /\ l.d <= (IF n = 0 THEN 0 ELSE IF Opener(p[n]) THEN p[n].d + 1 ELSE p[n].d)
      /\ (l.k = "else" => (IF j = 0 THEN FALSE ELSE p[j].d = l.d /\ (p[j].k = "if" \/ (p[j].k = "else" /\ p[j].x # "else"))))
      /\ (l.k = "except" => (IF j = 0 THEN FALSE ELSE p[j].d = l.d /\ p[j].k \in {"try", "except"}))
-     /\ (SelfAssign(l) => \E a \in enc : p[a].k = "init")                     \* self.x = ... only inside an __init__
+     /\ (InitOnly(l) => \E a \in enc : p[a].k = "init")                       \* self.x = ... only inside an __init__
      /\ (l.k = "all" => \A a \in enc : p[a].k \notin {"class", "init"})       \* __all__ only at module level
      /\ ((l.k = "import" /\ l.x = "star") => \A a \in enc : p[a].k \notin {"class", "init"})   \* SyntaxError elsewhere
      \* names are interchangeable: canonical programs introduce them in the order f, g, h
@@ -302,8 +311,10 @@ VisitImport ==        \* visit_import / visit_importfrom: imports map (not for *
 \* handle_attribute.  names: module/class -> get_names, __init__ -> get_instance_names (the `self.` targets),
 \* other functions -> return.  The loop over names shares `labels` (and docstring / annotation) between targets.
 AttrNames ==
+  \* in __init__: self.n -> "n"; self.o.n -> "o.n", self.o.p.n -> "o.p.n" (still dotted: skipped by the loop); obj.n, locals -> none;
+  \* self.n[0] and tuple targets -> KeyError in get_names -> return
   IF CurFrame.t = "init" THEN (IF SelfAssign(Line) THEN <<Line.n>> ELSE <<>>)
-  ELSE IF Line.x = "attr" \/ SelfAssign(Line) THEN <<>>             \* dotted target: `if "." in name: continue`
+  ELSE IF Line.x \in NoMemberTargets \/ SelfAssign(Line) THEN <<>>   \* dotted target: `if "." in name: continue`
   ELSE IF Line.x = "multi" THEN <<Line.n, Other(Line.n)>> ELSE <<Line.n>>
 AttrParent == IF CurFrame.t = "init" THEN AttrParent0 ELSE Cur
 NodeParentIsIfOrHandler == Top.t = "if" \/ (Top.t = "try" /\ Top.part = "else")
@@ -377,7 +388,7 @@ BindScope(i) ==
 Creates(i) ==      \* statements that bind a name to a new object of their own
   \/ P[i].k \in {"class", "init", "import"}
   \/ P[i].k = "def" /\ P[i].x \notin {"overload", "setter"}
-  \/ P[i].k = "assign" /\ P[i].x # "attr"
+  \/ P[i].k = "assign" /\ P[i].x \notin NoMemberTargets
   \/ P[i].k = "all" /\ P[i].x # "aug"
 BindNames(i) == IF P[i].k = "assign" /\ P[i].x = "multi" THEN {P[i].n, Other(P[i].n)} ELSE {P[i].n}
 B(s, n) == {i \in 1..N : Creates(i) /\ n \in BindNames(i) /\ BindScope(i) = s}
